@@ -1,0 +1,20 @@
+//go:build verif
+
+package kfl
+
+// Accessors for the verification harness (never compiled into a normal build).
+
+// VerifResetMacros empties the global macro table so that the harness can
+// register the macros again in another insertion order.
+func VerifResetMacros() {
+	macros = make(map[string]string, 0)
+}
+
+// VerifMacros returns a copy of the global macro table.
+func VerifMacros() map[string]string {
+	m := make(map[string]string, len(macros))
+	for k, v := range macros {
+		m[k] = v
+	}
+	return m
+}
